@@ -3,6 +3,7 @@ pub mod c01;
 pub mod c01real;
 pub mod c02;
 pub mod c03;
+pub mod c04;
 pub mod c06;
 pub mod c07;
 pub mod c08;
@@ -15,6 +16,7 @@ pub mod c15;
 pub mod c16;
 pub mod c17;
 pub mod c18;
+pub mod c19;
 
 /// returns (level, rule text) of the check that ran
 pub fn run(ctx: &Ctx) -> Option<(&'static str, &'static str)> {
@@ -23,6 +25,8 @@ pub fn run(ctx: &Ctx) -> Option<(&'static str, &'static str)> {
         "C02" => Some(c02::run(ctx)),
         "C03" => Some(c03::run_c03(ctx)),
         "C11" => Some(c03::run_c11(ctx)),
+        "C04" => Some(c04::run_c04(ctx)),
+        "C05" => Some(c04::run_c05(ctx)),
         "C06" => Some(c06::run(ctx)),
         "C07" => Some(c07::run(ctx)),
         "C08" => Some(c08::run(ctx)),
@@ -35,6 +39,7 @@ pub fn run(ctx: &Ctx) -> Option<(&'static str, &'static str)> {
         "C16" => Some(c16::run(ctx)),
         "C17" => Some(c17::run(ctx)),
         "C18" => Some(c18::run(ctx)),
+        "C19" => Some(c19::run(ctx)),
         _ => None,
     }
 }
